@@ -20,6 +20,8 @@
 //	new log <k>                          => ok <seq0>
 //	ann <id> | wd <id> | burst <m>       publisher announces / withdraws / m toggles
 //	    => seq=<latest> set=<ids>
+//	reach <b> | unreach <b>              peer b's RIB gains (advertisement of the publisher processed) / loses
+//	                                     (dead-neighbor check) its path to the publisher
 //	sync <b> <off>                       peer b learns sequence number latest-off
 //	deliver <b> | timeout <b> | drain <b>  the peer's pending Interest is answered from the publisher's
 //	                                     repo / times out / answered until nothing is pending
@@ -254,6 +256,12 @@ func genLog(g *common.Gen, r *common.Rand) {
 	k := r.Range(1, 3)
 	g.Op("new log %d", k)
 	g.Stat("log-history")
+	for b := 1; b <= k; b++ {
+		if r.Chance(2, 3) {
+			g.Op("reach %d", b)
+			g.Stat("reach")
+		}
+	}
 	steps := r.Range(8, 40)
 	bursts := []int{3, 30, 99, 100, 101, 102, 130, 250}
 	offs := []int{0, 0, 0, 0, 1, 2, 50, 100, 101, 150}
@@ -269,9 +277,17 @@ func genLog(g *common.Gen, r *common.Rand) {
 		case x < 48:
 			g.Op("burst %d", common.Pick(r, bursts))
 			g.Stat("burst")
-		case x < 65:
+		case x < 62:
 			g.Op("sync %d %d", b, common.Pick(r, offs))
 			g.Stat("sync")
+		case x < 65:
+			if r.Chance(1, 3) {
+				g.Op("unreach %d", b)
+				g.Stat("unreach")
+			} else {
+				g.Op("reach %d", b)
+				g.Stat("reach")
+			}
 		case x < 85:
 			g.Op("deliver %d", b)
 			g.Stat("deliver")
@@ -284,7 +300,14 @@ func genLog(g *common.Gen, r *common.Rand) {
 		}
 	}
 	for b := 1; b <= k; b++ {
-		g.Op("sync %d 0", b)
+		// the sync update may come before or after the path exists
+		if r.Chance(1, 2) {
+			g.Op("sync %d 0", b)
+			g.Op("reach %d", b)
+		} else {
+			g.Op("reach %d", b)
+			g.Op("sync %d 0", b)
+		}
 		g.Op("drain %d", b)
 	}
 }
@@ -641,6 +664,18 @@ func execLog(f []string) string {
 		}
 		sim.Settle()
 		return dumpPub()
+	case "reach", "unreach":
+		b, ok := bOf(f[1])
+		if !ok {
+			return "skip"
+		}
+		if f[0] == "reach" {
+			sim.Fetch(b, 0) // real advertSyncOnInterest + ribUpdate (dirty: prefixDataFetchAll)
+		} else if !sim.Dead(b, a.Name) {
+			return "skip"
+		}
+		collect(b)
+		return dumpPeer(b)
 	case "sync":
 		b, ok := bOf(f[1])
 		off := common.Atou(f[2])
@@ -723,10 +758,6 @@ func exec(op string) string {
 			}
 			sim = dvsim.NewSim(1 + k)
 			uni = newUniverse(1 + k)
-			for b := 1; b <= k; b++ {
-				sim.Fetch(b, 0) // the peer's RIB must reach the publisher (prefixDataFetch checks rib.Has)
-				sim.Nodes[b].Eng.TakePending()
-			}
 			return fmt.Sprintf("ok %d", pubRouter().Latest)
 		}
 		return "bad-op"
@@ -742,7 +773,7 @@ func exec(op string) string {
 		return "skip"
 	}
 	switch f[0] {
-	case "ann", "wd", "burst", "sync", "deliver", "timeout", "drain":
+	case "ann", "wd", "burst", "sync", "reach", "unreach", "deliver", "timeout", "drain":
 		return execLog(f)
 	}
 	return "skip"
